@@ -60,6 +60,19 @@ TYPE = Ty("type", "builtins")
 SEQUENCE = Ty("Sequence", "collections.abc", iterable=True)
 TYPING_TYPE = Ty("Type", "typing")
 NONE = Ty("NoneType", "builtins")
+
+
+class _Ellipsis:
+    """the `...` of Tuple[X, ...]: not a class, has no __module__ / __name__"""
+
+    def __repr__(self):
+        return "..."
+
+    def model_attr(self, a):
+        raise TypeErr(f"'ellipsis' object has no attribute {a!r}")
+
+
+ELLIPSIS = _Ellipsis()
 INT = Ty("int", "builtins")
 FLOAT = Ty("float", "builtins")
 STR = Ty("str", "builtins", iterable=True)
@@ -83,7 +96,7 @@ def opt_forms(x):
 
 
 GLOBALS = {
-    "Union": UNION, "Optional": OPTIONAL, "UnionType": UNIONTYPE, "list": LIST, "set": SET, "tuple": TUPLE, "type": TYPE, "Sequence": SEQUENCE,
+    "Union": UNION, "Optional": OPTIONAL, "UnionType": UNIONTYPE, "Ellipsis": ELLIPSIS, "list": LIST, "set": SET, "tuple": TUPLE, "type": TYPE, "Sequence": SEQUENCE,
     "Type": TYPING_TYPE, "NoneType": NONE, "int": INT, "float": FLOAT, "str": STR, "bool": BOOL, "datetime": DATETIME,
     "UUID": UUID_, "List": Ty("List", "typing"), "Set": Ty("Set", "typing"),
 }
@@ -171,6 +184,9 @@ CATEGORIES: Dict[str, List[Any]] = {
 }
 # classification-only categories (C17): annotations the class diagram classifies although the ORM grammar (C06) does not list them
 CLASSIFY_ONLY: Dict[str, List[Any]] = {
+    # tuple is one of the container types of the class diagram: the variadic form Tuple[X, ...] is a collection of X
+    "variadic-tuple-of-mapped": [Gen(TUPLE, (MAPPED, ELLIPSIS))],
+    "variadic-tuple-of-builtins": [Gen(TUPLE, (INT, ELLIPSIS)), Gen(TUPLE, (STR, ELLIPSIS))],
     "collection-of-enum": [Gen(LIST, (MYENUM,)), Gen(SET, (MYENUM,)), Gen(SEQUENCE, (MYENUM,))],
     "type-of-enum": [Gen(TYPE, (MYENUM,))],
 }
@@ -196,6 +212,8 @@ EXPECTED: Dict[str, Dict[str, Any]] = {
     "list-of-custom": dict(is_optional=F, is_container=T, is_builtin_type=F, is_enum=F, is_type_type=F, is_one_to_one_relationship=F, is_one_to_many_relationship=T, is_collection_of_builtins=F, endpoint="inner", is_iterable=T),
     # a collection of enum members is a container, not an enum field; Type[Enum] is type-valued
     "collection-of-enum": dict(is_optional=F, is_container=T, is_builtin_type=F, is_enum=F, is_type_type=F, is_one_to_one_relationship=F, is_one_to_many_relationship=T, is_collection_of_builtins=F, endpoint="inner", is_iterable=T),
+    "variadic-tuple-of-mapped": dict(is_optional=F, is_container=T, is_builtin_type=F, is_enum=F, is_type_type=F, is_one_to_one_relationship=F, is_one_to_many_relationship=T, is_collection_of_builtins=F, endpoint="inner", is_iterable=T),
+    "variadic-tuple-of-builtins": dict(is_optional=F, is_container=T, is_builtin_type=T, is_enum=F, is_type_type=F, is_one_to_one_relationship=F, is_one_to_many_relationship=F, is_collection_of_builtins=T, endpoint="inner", is_iterable=F),
     "type-of-enum": dict(is_optional=F, is_container=T, is_builtin_type=F, is_enum=F, is_type_type=T, is_one_to_one_relationship=F, is_one_to_many_relationship=T, is_collection_of_builtins=F, endpoint="inner", is_iterable=F),
 }
 
